@@ -96,6 +96,9 @@ fn owens_t_small_a(h: f64, a: f64) -> f64 {
 /// = T(h,inf) - T(h,a).  Positive integrand -> relative accuracy.
 pub fn owens_t_compl(h: f64, a: f64) -> f64 {
     let h = h.abs();
+    if h > 38.7 {
+        return 0.0; // <= Phi(-h)/2 underflows
+    }
     if a <= 1.0 && h * a < 0.7 {
         // T(h,a)/(Phi(-h)/2) <~ 0.8 h a : harmless cancellation
         return 0.5 * phi_cdf(-h) - owens_t_small_a(h, a);
@@ -133,6 +136,9 @@ fn t_identity_compl(h: f64, a: f64) -> f64 {
 /// Owen's T(h,a), any real h, a.  Relative accuracy ~1e-14.
 pub fn owens_t(h: f64, a: f64) -> f64 {
     let h = h.abs();
+    if h > 38.7 || a == 0.0 {
+        return 0.0; // |T| <= Phi(-h)/2 underflows
+    }
     let sgn = if a < 0.0 { -1.0 } else { 1.0 };
     let a = a.abs();
     if a <= 1.0 {
